@@ -208,6 +208,120 @@ def _mark_absorbed(bodies, helper_ids):
                 b["absorbed"] = True
 
 
+# ---------------------------------------------------------------- one generic stream body shared by several sequences
+SEQ_TRAIT = "zvt::sequences::Sequence"
+
+
+def specialise_sequence_helpers(bodies):
+    """`fn into_stream(..) { reply_loop(input, src, |p| matches!(p, Final(..))) }`: several sequences share one generic
+    stream body that is told by a predicate when to stop.  The rules read one stream body per sequence; this pass gives
+    each such sequence its own copy of the shared body - type parameters replaced by the call's type arguments, the call
+    of the predicate replaced by the predicate's body - which is what monomorphisation and inlining make of it anyway.
+    -> {sequence into_stream id: helper id}"""
+    by_id = {b["id"]: b for b in bodies}
+    done = {}
+    for f in list(bodies):
+        if not (f.get("defkind") == "AssocFn" and f.get("name") == "into_stream" and f.get("impl_trait") == SEQ_TRAIT):
+            continue
+        if any(b.get("coroutine_kind") and b["id"].startswith(f["id"] + "::") for b in bodies):
+            continue                                    # it has a stream body of its own
+        calls = [(i, blk["term"]) for i, blk in enumerate(f["blocks"]) if blk["term"]["t"] == "call" and not blk.get("cleanup")]
+        helper = [(i, t) for i, t in calls if (t.get("f") or {}).get("n") in by_id and
+                  by_id.get(t["f"]["n"] + "::{closure#0}", {}).get("coroutine_kind")]
+        if len(helper) != 1:
+            continue
+        ci, ct = helper[0]
+        h = by_id[ct["f"]["n"]]
+        co = by_id[ct["f"]["n"] + "::{closure#0}"]
+        gens = h.get("generics") or []
+        targs = ct["f"].get("a") or []
+        if len(gens) != len(targs):
+            continue
+        tmap = dict(zip(gens, targs))
+        # the predicate argument: a (non-capturing) closure or fn item turned into a fn pointer
+        defs = {}
+        for blk in f["blocks"]:
+            for st in blk["stmts"]:
+                if st.get("s") == "assign" and not st["p"]["p"]:
+                    defs.setdefault(st["p"]["l"], []).append(st)
+        pred = None
+        pred_pos = None
+        for k, a in enumerate(ct["args"]):
+            l = _bare_local(a) if "k" not in a else None
+            hops = 0
+            while l is not None and hops < 4:
+                hops += 1
+                ds = defs.get(l, [])
+                if len(ds) != 1:
+                    break
+                rv = ds[0]["rv"]
+                if rv["r"] == "cast" and "k" not in rv["o"]:
+                    l = _bare_local(rv["o"])
+                    continue
+                if rv["r"] == "use" and "k" not in rv["o"]:
+                    l = _bare_local(rv["o"])
+                    continue
+                if rv["r"] == "agg" and rv.get("kind") == "closure" and rv.get("n") in by_id and not rv.get("ops"):
+                    pred, pred_pos = by_id[rv["n"]], k
+                break
+        if pred is None or pred.get("coroutine_kind") or len(pred["blocks"]) > MAX_CLOSURE_BLOCKS:
+            continue
+        # which captured variable of the shared body is the predicate: parameter k of the helper = upvar of that name
+        pname = (h["locals"][1 + pred_pos] or {}).get("name") if 1 + pred_pos < len(h["locals"]) else None
+        ups = co.get("upvars") or []
+        uidx = [u["p"]["p"][0]["f"] for u in ups if u.get("name") == pname and u["p"]["p"] and isinstance(u["p"]["p"][0], dict) and "f" in u["p"]["p"][0]]
+        if pname is None or len(uidx) != 1:
+            continue
+        uidx = uidx[0]
+        c = _subst(copy.deepcopy(co), tmap)
+        # indirect calls through that captured fn pointer
+        cdefs = {}
+        for blk in c["blocks"]:
+            for st in blk["stmts"]:
+                if st.get("s") == "assign" and not st["p"]["p"]:
+                    cdefs.setdefault(st["p"]["l"], []).append(st)
+        sites = []
+        ok = True
+        for i, blk in enumerate(c["blocks"]):
+            t = blk["term"]
+            if t["t"] != "call" or "fop" not in t:
+                continue
+            l = _bare_local(t["fop"])
+            ds = cdefs.get(l, []) if l is not None else []
+            src = ds[0]["rv"]["o"] if len(ds) == 1 and ds[0]["rv"]["r"] == "use" else None
+            pl = _place_of(src) if src is not None else None
+            fs = [e for e in (pl["p"] if pl else []) if e != "deref"]
+            if pl is not None and pl["l"] == 1 and len(fs) == 1 and isinstance(fs[0], dict) and fs[0].get("f") == uidx:
+                sites.append(i)
+            else:
+                ok = False
+        if not ok or not sites:
+            continue
+        c["id"] = f["id"] + "::{shared stream body}"
+        c["root"] = f["id"]
+        c["parent"] = f["id"]
+        for key in ("impl_trait", "impl_self", "impl_trait_args", "name"):
+            if key in f:
+                c[key] = copy.deepcopy(f[key])
+        c["specialised_from"] = co["id"]
+        lw = _Lower(c, by_id)
+        stub = {"rv": {"ops": []}}
+        try:
+            for i in sites:
+                t = c["blocks"][i]["term"]
+                res = t["dest"]
+                if res["p"]:
+                    raise _NoLower()
+                entry = lw.emit_call(("closure", pred, stub), t["args"], res["l"], t["to"], t.get("sp"), t.get("unwind"))
+                c["blocks"][i]["term"] = {"t": "goto", "to": entry, "sp": t.get("sp"), "inlined_call": pred["id"]}
+        except _NoLower:
+            continue
+        bodies.append(c)
+        by_id[c["id"]] = c
+        done[f["id"]] = h["id"]
+    return done
+
+
 # ---------------------------------------------------------------- private async helpers
 def async_eligible(raw, by_id):
     """raw: the outer body of an `async fn`.  Returns its coroutine body if the function is a private,
